@@ -14,7 +14,7 @@ PROP = "C17"
 LEVEL = "fault_enumeration"
 MIN_VARIANTS = 1
 TIERS = {
-    "quick": {"cases": 60, "budget_s": 75, "batch": 24},
+    "quick": {"cases": 150, "budget_s": 80, "batch": 32},
     "thorough": {"cases": 1500, "budget_s": 900, "batch": 48},
 }
 RULE = (
